@@ -10,7 +10,7 @@ ASSUME = {
 
 
 def main():
-    return run("C19", ll_push() + ll_process() + split_off() + pop_n() + skip_classification() + twins(('ll','ker')), ASSUME["C19"])
+    return run("C19", ll_push() + ll_process() + add_error() + split_off() + pop_n() + skip_classification() + twins(('ll','ker')), ASSUME["C19"])
 
 
 def replay(path):
